@@ -14,7 +14,7 @@ EXPLANATION = (
     "finite std iterator, or the range engine proves a measure strictly smaller at every back edge than at the loop head (the length of "
     "the remaining input in parse_hunk and parse_hunks, through the summaries of the sub-parsers: strip_prefix takes exactly the "
     "needle off, s[a..] is a shorter by a, map_err / map keep the remainder) or strictly larger and bounded by a length the loop does "
-    "not change (the index in parse_c_string). Not decided: termination of the loops of parse_filepatch and parse_patch (reported as "
+    "not change (the index in parse_c_string). (R2b) in the parser's loops that are not walks over finite iterators a vector only grows on ways round that consume input. Not decided: termination of the loops of parse_filepatch and parse_patch (reported as "
     "undecided with the reason: facts conditional on the returned PatchLine variant resp. a value-level argument about the "
     "extended_headers flag), memory proportionality beyond R2, and crash freedom of the whole tool (the thorough tier lists the "
     "undischarged sites outside the parser for information)."
